@@ -543,6 +543,9 @@ func RunScript(pos *ScriptPos, c *carrier, ops []mtypes.Op, ret int, ignore bool
 	}
 	wantOK, wantOut := expectScript(pre, post, ops, ret, ignore, c.fallback, repeat, false)
 	got, err := jsonv2.Marshal(v, opts...)
+	if PanicsOnly {
+		return ""
+	}
 	// Inside objects that Marshal writes itself the Encoder's own duplicate-name tracking may be switched
 	// off (Marshal tracks names another way), so a user-written member NAME equal to an existing one is
 	// either rejected by the Encoder (no effect) or accepted as a token (then the call is non-singular).
@@ -646,6 +649,16 @@ func marshalPolicing(r *evid.Run, prop string) {
 
 // MarshalPolicing is also the adversarial-user-code part of C02.
 func MarshalPolicing(r *evid.Run, prop string) { marshalPolicing(r, prop) }
+
+// PanicsOnly restricts reporting to library panics (used by C20's no-panic sweep over the same script space).
+var PanicsOnly bool
+
+// MarshalPolicingPanics runs the script space with the no-panic oracle only.
+func MarshalPolicingPanics(r *evid.Run, prop string) {
+	PanicsOnly = true
+	defer func() { PanicsOnly = false }()
+	marshalPolicing(r, prop)
+}
 
 // ---- unmarshal policing ----
 
